@@ -68,7 +68,7 @@ WMAX = ["0", "1/20", "1/4", "7/20", "3/2", "19/20", "5"]
 
 
 def budget_s(tier):
-    return 400 if tier == "quick" else 3600
+    return 1500 if tier == "quick" else 5400
 
 
 def source_component(name, flavour, idx, n1, n2):
